@@ -89,12 +89,14 @@ class Src:
         return li + 1, off - self.offs[li] + 1
 
     def node_starts(self) -> Set[Pos]:
-        """Starts of all ast nodes, decorator ``@`` tokens and ``(`` tokens (see C04 ASSUMPTIONS), plus (1, 1)."""
+        """Starts of all ast nodes (and of their lines), decorator ``@`` and ``(`` tokens (see C04 ASSUMPTIONS), (1, 1)."""
         out = {(1, 1)}  # type: Set[Pos]
         for node in ast.walk(self.tree):
             if hasattr(node, "lineno") and hasattr(node, "col_offset"):
                 out.add(self.start(node))
                 out.update(self.decorator_ats(node))
+                # "... or of the first character of its line"
+                out.add((node.lineno, 1))  # type: ignore
         try:
             for t in tokenize.generate_tokens(io.StringIO(self.text).readline):
                 if t.type == tokenize.OP and t.string == "(":
@@ -102,6 +104,13 @@ class Src:
         except (tokenize.TokenError, IndentationError, SyntaxError):
             pass
         return out
+
+    def first_statement_start(self) -> Optional[Pos]:
+        body = getattr(self.tree, "body", [])
+        if not body:
+            return None
+        ps = [self.start(body[0])] + self.decorator_ats(body[0])
+        return min(ps)
 
     def candidates(self, nodes: Sequence[ast.AST]) -> Set[Pos]:
         """
